@@ -528,7 +528,7 @@ func (w *world) feederCheck() {
 	}
 	fi := w.addCase(Case{Kind: "hist", Evs: script, Obs: obs, Source: "stats-topic", Note: "feeder"})
 	if cl, d := diffIdents(expected, obs); cl != "" || f.seq < 0 {
-		w.violate(lib.Violation{Clause: "feeder-not-listed", Case: fi, Detail: "topic stats lists " + fmt.Sprint(len(obs)) + " connections; " + cl + " " + d, Key: "feeder-not-listed",
+		w.violate(lib.Violation{Clause: "feeder-not-listed", Case: fi, Detail: fmt.Sprintf("topic stats lists %d connections; %s %s (last frame: seq %d, age %v, %d reports, decode error %v, starts %.120q)", len(obs), cl, d, f.seq, time.Since(f.at).Round(time.Millisecond), len(f.reports), f.err, f.raw), Key: "feeder-not-listed",
 			Replay: Case{Kind: "hist", Evs: script, Source: "stats-topic"}})
 	}
 }
